@@ -56,6 +56,25 @@ ROUND4 = {
     "C20": " Also: the webhook service's DNS names for every service x namespace ending of an alphabet (certificates issued and verified for six of them); packages installed under names that are not DNS labels. The initializer's direct client is never answered 404 for an existing object.",
 }
 
+# Added by the fifth round (dynamic triggers).
+ROUND5 = {
+    "C03": " Also: an observed resource still managed client-side (managed-fields upgrade pending).",
+    "C04": " Also: a failed read answers with any class of API error (500, server timeout, 504, 429, 503).",
+    "C05": " Also: a custom condition mirrored on the claim must become Unknown there too after a fatal result.",
+    "C07": " Also: the user binds the claim to a statically provisioned XR (or edits a field) just before the k-th API call of the claim's first reconcile, k = 1..8.",
+    "C08": " Also: a second XR whose first reconcile was cut short after its finalizer was written (no labels), and an XR controller that gets to one instance at a time.",
+    "C10": " Also: the kind of a template not being served (CRD not installed) while its name is generated.",
+    "C11": " Also: long-lived definition and offered controllers over an XRD that is edited in place or deleted and created again under the same name.",
+    "C12": " Also: scenario live-instances-sequence - every sequence of 5 events on one live revision controller and one live XR reconciler, without the transition memo.",
+    "C13": " Also: two informers removed at once under two running controllers, with the iteration order of every map range owned by the explorer (sorted / reversed, alternating).",
+    "C14": " Also: the production fetcher (xpkg.K8sFetcher) against an in-process OCI registry over HTTP whose manifest HEAD and GET requests fail on demand, for an image and for a multi-platform index, every sequence of three reconciles.",
+    "C15": " Also: 2-3 revisions initialising concurrently through the one shared ImageBackend (thread mode; scheduling points at backend-option boundaries and registry calls).",
+    "C16": " Also: the webhook TLS secret coming and going; no object controlled by a deactivated revision under any name.",
+    "C17": " Also: another revision writing the Lock (removing or replacing a dependency) between a resolving revision's read and write.",
+    "C18": " Also: the roles controller driven by its own event handlers (constructed as Setup does) over family-label, ownership and deletion edits, judged at an empty work queue.",
+    "C19": " Also: Usages deleted with foreground propagation.",
+}
+
 CLAIMED.update({
     "C10": {
         "text": "Exhaustive products over a 42-value JSON alphabet (every JSON type, int64/float boundaries, nested), 108 transform configurations (every transform type and parameter corner incl. negative/out-of-range regexp groups, malformed formats), chains of two, 7 patch types x 13 from-paths x 16 to-paths x 13 policies/merge options, combine patches, render/metadata cases: Resolve/Apply never panic, are deterministic and pure (source deep-equal before/after), optional-missing is a no-op and required-missing an error, results agree with an independent reference of each transform's documented meaning and the convert round-trip laws; reconciler-level scenarios show a composed resource whose from-XR patch, metadata or name generation failed is not written while its sibling is, and that the merge options of one template's patches do not change what is applied for the next template.",
@@ -176,7 +195,7 @@ def main():
                 "evidence_file": f"evidence/{cid}.json",
                 "replay_cmd_template": "./vcheck replay {path}",
                 "engine": "explore",
-                "level_claimed": {"category": LEVEL[cid], "text": c["text"] + ROUND4.get(cid, ""), "design_ref": f"DESIGN.md section 3 {cid}"},
+                "level_claimed": {"category": LEVEL[cid], "text": c["text"] + ROUND4.get(cid, "") + ROUND5.get(cid, ""), "design_ref": f"DESIGN.md section 3 {cid}"},
                 "level_note": c.get("note", COMMON_NOTE),
                 "technique": c["technique"],
             })
